@@ -101,6 +101,30 @@ def conjuncts(test: ast.expr, polarity: bool = True) -> list[tuple[ast.expr, boo
 SIMPLE_HELPERS: dict[str, tuple[list[str], ast.expr]] = {}
 
 
+def predicate_normal_form(node: ast.FunctionDef):
+    """A predicate written as guard clauses - `if c1: return False` ... `if cn: return False`,
+    `return True` (or with the constants swapped) - returns `not (c1 or ... or cn)` (resp.
+    `c1 or ... or cn`): the single-return expression, or None for any other shape."""
+    body = [b for b in node.body if not (isinstance(b, ast.Expr) and isinstance(b.value, ast.Constant)
+                                         and isinstance(b.value.value, str))]
+    if len(body) < 2 or not isinstance(body[-1], ast.Return) or not isinstance(body[-1].value, ast.Constant) \
+            or not isinstance(body[-1].value.value, bool):
+        return None
+    last = body[-1].value.value
+    conds = []
+    for st in body[:-1]:
+        if not (isinstance(st, ast.If) and not st.orelse and len(st.body) == 1 and isinstance(st.body[0], ast.Return)
+                and isinstance(st.body[0].value, ast.Constant) and st.body[0].value.value is (not last)):
+            return None
+        conds.append(st.test)
+    import copy
+    disj = copy.deepcopy(conds[0]) if len(conds) == 1 else ast.BoolOp(op=ast.Or(), values=[copy.deepcopy(c) for c in conds])
+    out = ast.UnaryOp(op=ast.Not(), operand=disj) if last else disj
+    for y in ast.walk(out):
+        ast.copy_location(y, body[0])
+    return out
+
+
 def register_simple_helpers(funcs) -> None:
     """funcs: iterable of (name, ast.FunctionDef).  A helper is *simple* when its body is
     (a docstring and) one `return <expr>`, it has no *args/**kwargs/defaults-free surprises and
@@ -113,6 +137,9 @@ def register_simple_helpers(funcs) -> None:
         seen[name] = seen.get(name, 0) + 1
         body = [b for b in node.body if not (isinstance(b, ast.Expr) and isinstance(b.value, ast.Constant)
                                              and isinstance(b.value.value, str))]
+        pnf = predicate_normal_form(node)
+        if pnf is not None:
+            body = [ast.copy_location(ast.Return(value=pnf), node)]
         if len(body) == 1 and isinstance(body[0], ast.Return) and body[0].value is not None \
                 and not node.args.vararg and not node.args.kwarg and not node.args.kwonlyargs \
                 and not any(isinstance(d, ast.Name) and d.id == "property" or
